@@ -132,7 +132,7 @@ class LockModel:
         self.direct_lock = {}      # body id -> [Call]
         self.direct_cb = {}        # body id -> [Call] callback sites
         for b in prog.bodies:
-            self.direct_lock[b.id] = [c for c in b.live_calls if c.callee in LOCK_CALLS]
+            self.direct_lock[b.id] = [c for c in b.live_calls if prog.is_lock_call(c)]
             self.direct_cb[b.id] = [c for c in b.live_calls if prog.is_callback(c)]
         self.can_lock = self._closure(lambda bid: bool(self.direct_lock[bid]))
         self.can_cb = self._closure(lambda bid: bool(self.direct_cb[bid]))
@@ -250,7 +250,7 @@ def rule_lock_a(lm, want=('a',)):
                             obs.append(ok('LOCK-a', key, 'call with %s guard live reaches no callback site' % held, c.where()))
                 if 'b' in want:
                     key = _site_key('LOCK-b', c, live, gf, ordinal)
-                    if c.callee in LOCK_CALLS:
+                    if prog.is_lock_call(c):
                         obs.append(bad('LOCK-b', key, 'nested lock acquisition while %s guard is live' % held, c.where(), body=body.name, bb=b))
                     else:
                         hit = [tu for tu in targets if tu in lm.can_lock]
